@@ -190,7 +190,7 @@ type SampledCase struct {
 
 func TestC12RejectSampled(t *testing.T) {
 	ws := theWorlds(t)
-	vlib.Check(t, 200, 2000, func(rt *rapid.T) {
+	vlib.Check(t, 200, 1000, func(rt *rapid.T) {
 		var c RejectCase
 		c.Path = "mem"
 		switch rapid.IntRange(0, 9).Draw(rt, "baseKind") {
@@ -291,7 +291,7 @@ func enumBases(t testing.TB) []RejectCase {
 	// small, medium (crossing 4096) and, in the thorough tier, large (crossing 8192) generated files
 	wantSmall, wantMid, wantBig := 4, 1, 0
 	if vlib.Thorough() {
-		wantSmall, wantMid, wantBig = 5, 2, 1
+		wantSmall, wantMid, wantBig = 5, 1, 1
 	}
 	for i := 0; i < 4000 && wantSmall+wantMid+wantBig > 0; i++ {
 		s := gen.Example(seed*4096 + i)
@@ -327,6 +327,9 @@ func TestC12RejectEnumerated(t *testing.T) {
 			flipStride, fixStride = 16, 16
 			if vlib.Thorough() {
 				flipStride, fixStride = 1, 8
+				if len(file) > 8192 {
+					flipStride = 2
+				}
 			}
 		}
 		stats := map[string]int{}
@@ -429,7 +432,7 @@ func TestC12Isolated(t *testing.T) {
 	}
 	nHostile := len(cases)
 	// (b) file system, mmap and plain reads, reader and writer
-	budget := vlib.Scale(1400, 12000)
+	budget := vlib.Scale(1400, 6000)
 	var fsCases []RejectCase
 	for wi, w := range ws {
 		for li, layout := range []string{"new", "old", "two"} {
